@@ -191,6 +191,10 @@ def tok_close(a, b, tol):
             return False
         if x in (float("inf"), float("-inf")) or y in (float("inf"), float("-inf")):
             return x == y
+        if tol < 0:
+            # relative comparison (families of single operations at extreme magnitudes, where there is
+            # no cancellation and an absolute floor would hide a wrong tiny or huge result)
+            return abs(x - y) <= (-tol) * (abs(x) + abs(y))
         return abs(x - y) <= tol * (1.0 + abs(x) + abs(y))
     return False
 
@@ -318,8 +322,8 @@ def view_update(cmd, out):
     """C13: the parameters after an update, their gradients and flags"""
     w = cmd.split()[0]
     if out in ("PANIC", "-", "BADCMD"):
-        return out if w == "gdupdate" else None
-    if w == "gdupdate":
+        return out if w in ("gdupdate", "gdstep", "update") else None
+    if w in ("gdupdate", "gdstep", "update", "params"):
         return out
     if w == "probe":
         return kv(out, ["tr", "keep", "kids"])
@@ -587,6 +591,8 @@ def main():
         mode = fam.get("mode", "exact")
         variant = fam.get("variant", "f64")
         tol = families.TOL["f32" if variant == "f32" and mode != "exact" else mode]
+        if fam.get("relative"):
+            tol = -tol
         stats = {"cases": len(cases), "commands": sum(len(c.lines) for c in cases), "mode": mode, "variant": variant,
                  "impl_vs_model_disagreements": 0, "impl_vs_spec_failures": 0, "model_vs_spec_disagreements": 0,
                  "immutability_failures": 0, "inexact_discarded": 0, "crashes": 0, "spec_lines_checked": 0,
@@ -614,6 +620,8 @@ def main():
             # only findings that the reference build does not share count here
             bv = fam["baseline_variant"]
             btol = families.TOL[mode if mode != "f32" else "float"]
+            if fam.get("relative"):
+                btol = -btol
             bmode = "float" if mode == "f32" else mode
             bchunks = chunks
             if mode == "f32":
